@@ -55,6 +55,8 @@ struct Spec {
     std::vector<std::string> late;      // scripts of threads that are started after the ordered ones have queued up and arrive whenever the schedule lets them
     int rendezvous = 0;                 // C12(iii): number of readers that meet at a barrier inside the read section
     int spurious = 0;                   // spurious condition-variable wake-ups the scheduler may generate per execution (each costs 1 from the bound)
+    bool single = false;                // a program too large to enumerate: only its default schedule is executed
+    bool outer_read = false;            // the late threads hold a read lock on a SECOND, unrelated Resource while they run their scripts (state kept per thread instead of per Resource shows up here)
     bool audit = false;                 // stateful pass without cutting off (every schedule executed): must visit exactly the same number of states
     bool stateful = false;              // all schedules (no preemption bound), pruned at visited states; oracles kept online in cells
 };
@@ -249,6 +251,7 @@ void run_stateful(const Spec &s) {
 
 void run(const Spec &s) {
     g_nb = count_b(s);
+    auto other = std::make_unique<Resource>();
     auto res = std::make_unique<Resource>();
     g_res = res.get();
     vs_cell_set(CELL_EXPECT, s.check_excl ? 1 : 0);
@@ -272,7 +275,7 @@ void run(const Spec &s) {
             // late arrivals: started while the writer still holds, they issue their request whenever the schedule lets them - while the batch is still queued,
             // while its members are waking up one after the other, or after they are all inside; they are not part of the rendezvous
             for (size_t i = 0; i < s.late.size(); i++)
-                th.emplace_back([&res, &s, i] { for (char op : s.late[i]) plain_op(*res, op, s); });
+                th.emplace_back([&res, &other, &s, i] { if (s.outer_read) other->lockRead(); for (char op : s.late[i]) plain_op(*res, op, s); if (s.outer_read) other->unlockRead(); });
             if (!s.late.empty()) vs_point(2);
         });
     } else if (s.holder) {
@@ -282,7 +285,7 @@ void run(const Spec &s) {
                 if (s.ordered_arrival) vs_block_until(pred_parked, (void *)(long)(i + 1));
             }
             for (size_t i = 0; i < s.late.size(); i++)
-                th.emplace_back([&res, &s, i] { for (char op : s.late[i]) plain_op(*res, op, s); });
+                th.emplace_back([&res, &other, &s, i] { if (s.outer_read) other->lockRead(); for (char op : s.late[i]) plain_op(*res, op, s); if (s.outer_read) other->unlockRead(); });
             vs_point(2);
         });
     } else {
@@ -311,8 +314,9 @@ void add(VSuite &suite, Spec s, int bound, const std::string &flavour, bool unlo
     VProgram p;
     std::string nm = s.rendezvous ? "rendezvous" + std::to_string(s.rendezvous) : (s.holder ? std::string("hold") + s.holder + (s.ordered_arrival ? "-ordered-" : "-") : std::string()) + join(s.scripts);
     if (!s.late.empty()) nm += "+late-" + join(s.late);
-    p.name = nm + (s.guards ? "-guards" : "") + (s.spurious ? "+spurious" : "") + (s.stateful ? "@all" : "");
+    p.name = nm + (s.outer_read ? "+outer" : "") + (s.guards ? "-guards" : "") + (s.spurious ? "+spurious" : "") + (s.stateful ? "@all" : "");
     p.stateful = s.stateful; if (s.stateful) p.park_cb = st_park;
+    p.single_schedule = s.single; if (s.single) { p.name += "@once"; p.describe += "; ONE schedule only (the default one): the program is far too large to enumerate and is run as a plain scenario"; }
     p.stateful_audit = s.audit; if (s.audit) p.name += "-audit";
     p.spurious = s.spurious;
     p.describe = s.rendezvous ? "main holds the write lock while " + std::to_string(s.rendezvous) + " readers queue up one after the other; after it unlocks the readers wait for each other inside the read section" +
@@ -320,7 +324,7 @@ void add(VSuite &suite, Spec s, int bound, const std::string &flavour, bool unlo
                  : std::string(s.holder ? std::string("main holds ") + s.holder + " while the threads " + (s.ordered_arrival ? "queue up in order" : "start") + "; " : "") +
                    (s.late.empty() ? std::string() : "late threads [" + join(s.late) + "] start while the holder still holds and arrive at any time; ") +
                    "threads run the scripts [" + join(s.scripts) + "] (R/W = one read/write critical section with a scheduling point inside)" + (s.guards ? " using ReadLock/WriteLock guards" : " using raw lock*/unlock* calls") +
-                   (s.spurious ? "; one spurious wake-up of a thread waiting on the condition variable may happen anywhere (costs 1 like a preemption)" : "");
+                   (s.outer_read ? "; the late threads hold a read lock on a second, unrelated Resource meanwhile" : "") + (s.spurious ? "; one spurious wake-up of a thread waiting on the condition variable may happen anywhere (costs 1 like a preemption)" : "");
     p.bound = bound;
     p.unlock_points = unlock_points;
     p.body = [s] { if (s.stateful) run_stateful(s); else run(s); };
@@ -402,6 +406,8 @@ bool provider(const std::string &prop, const std::string &tier, const std::strin
             { Spec s = base; s.holder = 'R'; s.ordered_arrival = true; s.scripts = {"W", "B"}; s.late = {"B", "B"}; s.stateful = st; add(suite, s, thorough ? 2 : 1, flavour); }
             { Spec s = base; s.holder = 'R'; s.ordered_arrival = true; s.scripts = {"W", "B", "R"}; s.late = {"B"}; s.stateful = st; add(suite, s, thorough ? 2 : 1, flavour); }
         }
+        // "any number of readers": batches far beyond what can be enumerated, one schedule each (a limit hidden in the code - admit at most N at a time - shows up here)
+        for (int k : {20, 40, 60}) { Spec s = base; s.rendezvous = k; s.single = true; add(suite, s, 0, flavour); }
         // a reader that arrives while the members of an admitted batch are still waking up must neither be held back nor disturb them
         { Spec s = base; s.rendezvous = 2; s.late = {"R"}; add(suite, s, 2, flavour); }
         { Spec s = base; s.rendezvous = 2; s.late = {"R", "R"}; add(suite, s, thorough ? 2 : 1, flavour); }
@@ -479,6 +485,8 @@ bool provider(const std::string &prop, const std::string &tier, const std::strin
             s.spurious = 1; add(suite, s, 2, flavour);       // a queued waiter wakes spuriously while the holder still holds, or between admission and its own wake-up
         }
         if (prop == "C03") {
+            // the late reader holds a read lock on another Resource: what it holds elsewhere must not let it pass the writer that waits here
+            for (auto &q : std::vector<std::vector<std::string>>{{"W"}, {"W", "R"}, {"W", "W"}}) for (const char *l : {"R", "RR"}) { Spec s = base; s.holder = 'R'; s.ordered_arrival = true; s.scripts = q; s.late = {l}; s.outer_read = true; add(suite, s, 2, flavour); }
             // a queue of two or three waiting requests plus one late arrival of either kind: the late request must not overtake anything that was
             // already waiting when it was issued (e.g. a reader joining the active read batch while a second writer is still queued)
             for (char holder : {'W', 'R'}) for (int k = 2; k <= 3; k++) for (auto &q : sequences(k, {"R", "W"})) {
